@@ -640,6 +640,10 @@ func c17Rows(c *Ctx, p *Prog) {
 				// the only unit whose metric is "speed" is MB/s itself (metricOf: exact match in the suffix table)
 				t := !v
 				notSpeed = &t
+			case s.Op == "opaque" && isBoolT(s.Type) && c17MetricTest(fn, s.Name) != 0:
+				// the metric test hoisted out of the row loop: table.Metric != "speed" computed once per table
+				t := (c17MetricTest(fn, s.Name) > 0) == v
+				notSpeed = &t
 			case strings.Contains(str, ".Unit") || strings.Contains(str, "hasBaseUnit") || strings.Contains(str, "HasSuffix"):
 				wrongDirection = k
 			case s.Op == "binop" && s.Tok == token.EQL && strings.Contains(str, "Note"):
@@ -1119,4 +1123,32 @@ func c17Percentile(c *Ctx, p *Prog) {
 
 func isZeroConst(s *Sym) bool {
 	return s.isConst() && s.Const != nil && (s.Const.Kind() == constant.Int || s.Const.Kind() == constant.Float) && constant.Sign(s.Const) == 0
+}
+
+// c17MetricTest: the value of fn with SSA name `name` is Metric != "speed" (+1), Metric == "speed" (-1), or neither (0).
+func c17MetricTest(fn *ssa.Function, name string) int {
+	res := 0
+	eachInstr(fn, func(_ *ssa.BasicBlock, in ssa.Instruction) {
+		bo, ok := in.(*ssa.BinOp)
+		if !ok || bo.Name() != name || (bo.Op != token.EQL && bo.Op != token.NEQ) {
+			return
+		}
+		var other ssa.Value
+		if s, ok := constString(bo.Y); ok && s == "speed" {
+			other = bo.X
+		} else if s, ok := constString(bo.X); ok && s == "speed" {
+			other = bo.Y
+		}
+		if other == nil {
+			return
+		}
+		if f, _ := loadOfField(other); f != nil && f.Name() == "Metric" {
+			if bo.Op == token.NEQ {
+				res = 1
+			} else {
+				res = -1
+			}
+		}
+	})
+	return res
 }
